@@ -183,7 +183,7 @@ def run(ctx):
     known = {}
     OPEN = {"(": ")", "[": "]", "{": "}"}
     rng = ctx.rng
-    for depth in ([150, 1100, 3000] if not thorough else [150, 1100, 3000, 10000, 30000]):
+    for depth in ([150, 1100, 3000] if not thorough else [150, 1100, 3000, 8000]):
         br = [rng.choice("([{") for _ in range(depth)]
         body = list(br) + ["char_lit"] + [OPEN[b] for b in reversed(br)]
         deep = ["tokId", ":"] + body + [";"]
@@ -194,7 +194,7 @@ def run(ctx):
             if True:
                 seqs.append(q)
                 known[len(seqs) - 1] = v
-    for ln in ([2500] if not thorough else [2500, 20000]):
+    for ln in ([2500] if not thorough else [2500, 8000]):
         longlex = []
         for i in range(ln // 5):
             longlex += [rng.choice(["tokId", "regDefId", "ignoredTokId"]), ":", "char_lit", rng.choice(["|", "-", "char_lit"]), "char_lit", ";"]
@@ -255,7 +255,7 @@ def run(ctx):
         "evaluations": len(seqs), "distinct_nontrivial": len(distinct),
         "rule": "token sequences over the front end's alphabet: random derivations of the spec grammar (depth budget 4-20), 45% with "
                 "1-3 token-level edits, 5% random; plus constructed sentences and near misses: bracket nesting 150 / 1100 / 3000 deep (thorough: "
-                "up to 30000), lists of 2500 tokens (thorough: 20000); non-trivial = at least 6 tokens; distinct sequences",
+                "up to 8000), lists of 2500 tokens (thorough: 8000); non-trivial = at least 6 tokens; distinct sequences",
         "samples": [{"tokens": seqs[i], "front_end": go[i]} for i in range(3)],
         "programs": 1, "verdict_histogram": dict(hist), "states": len(tables["states"]), "productions": len(spec),
         "traces_validated_against_impl": len(seqs), "disagreements": disagreements,
